@@ -197,6 +197,7 @@ func c11prop(r *simkit.Run) {
 	}
 
 	var reached string
+	failMeter := false
 	next := http.HandlerFunc(func(rw http.ResponseWriter, req *http.Request) {
 		reached = keyOf(req.URL)
 		rw.WriteHeader(http.StatusOK)
@@ -210,7 +211,13 @@ func c11prop(r *simkit.Run) {
 	if viaRB {
 		rr, _ := roundrobin.New(next)
 		rb, err := roundrobin.NewRebalancer(rr, roundrobin.RebalancerStickySession(sticky),
-			roundrobin.RebalancerMeter(func() (roundrobin.Meter, error) { return neverReady{}, nil }))
+			roundrobin.RebalancerMeter(func() (roundrobin.Meter, error) {
+				if failMeter {
+					failMeter = false
+					return nil, errMeter
+				}
+				return neverReady{}, nil
+			}))
 		if err != nil {
 			rt.Fatalf("rebalancer: %v", err)
 		}
@@ -335,7 +342,7 @@ func c11prop(r *simkit.Run) {
 			}
 			corrupted++
 			c := s.cookie
-			kind := rapid.SampledFrom([]string{"truncate", "flip", "base64-alphabet", "case", "append", "empty", "foreign-key", "drop"}).Draw(rt, "corruption")
+			kind := rapid.SampledFrom([]string{"truncate", "flip", "base64-alphabet", "case", "append", "empty", "foreign-key", "for-non-member", "drop"}).Draw(rt, "corruption")
 			switch kind {
 			case "truncate":
 				if len(c) > 0 {
@@ -368,6 +375,17 @@ func c11prop(r *simkit.Run) {
 				if len(model.m) > 0 {
 					m := model.m[rapid.IntRange(0, len(model.m)-1).Draw(rt, "forged-for")]
 					c = foreign.Get(mustURL(m.str))
+				}
+			case "for-non-member":
+				// a genuine cookie (right key) for a URL that is not in the pool now
+				var out []string
+				for _, k := range keys {
+					if model.find(k) < 0 {
+						out = append(out, k)
+					}
+				}
+				if len(out) > 0 {
+					c = cv.Get(mustURL(universe[out[rapid.IntRange(0, len(out)-1).Draw(rt, "non-member")]]))
 				}
 			case "drop":
 				s.has, s.cookie = false, ""
@@ -404,6 +422,14 @@ func c11prop(r *simkit.Run) {
 				default:
 					add(k, model.m[i].weight)
 				}
+			} else if viaRB && rapid.IntRange(0, 3).Draw(rt, "meter-fails") == 0 {
+				// the rebalancer cannot build a meter for the new server: the add must fail and leave no trace
+				failMeter = true
+				if err := admin.UpsertServer(mustURL(universe[k]), roundrobin.Weight(1)); err == nil {
+					fail("upsert-result", "UpsertServer(%s) succeeded although its meter could not be built", universe[k])
+				}
+				failMeter = false
+				note("failed add of %s", universe[k])
 			} else {
 				add(k, rapid.IntRange(1, 3).Draw(rt, "w"))
 			}
